@@ -280,6 +280,35 @@ pub fn drive_c17(seed: u64, thorough: bool, out: &mut dyn Write) -> usize {
         }
         writeln!(out, "{}", rec).unwrap();
     }
+    // the public Duration / Timestamp wrappers (alone and inside derived-like containers)
+    let durs: Vec<chrono::Duration> = crate::drive_ops::dur_boundary().into_iter().map(chrono::Duration::nanoseconds)
+        .chain([chrono::Duration::MAX, chrono::Duration::MIN, chrono::Duration::milliseconds(i64::MAX / 2), chrono::Duration::seconds(-1) + chrono::Duration::nanoseconds(1)]).collect();
+    for d in &durs {
+        let expect = Value::Duration(*d);
+        for wrap in 0..3 {
+            let r = catch_unwind(AssertUnwindSafe(|| match wrap {
+                0 => cel_interpreter::to_value(cel_interpreter::Duration(*d)),
+                1 => cel_interpreter::to_value(vec![cel_interpreter::Duration(*d)]),
+                _ => cel_interpreter::to_value(std::collections::BTreeMap::from([("d", cel_interpreter::Duration(*d))])),
+            }));
+            let (o, _) = ser_outcome(r);
+            id += 1;
+            writeln!(out, "{}", json!({"id": id, "op": "wrap", "wrap": wrap, "a": enc::value(&expect), "out": o})).unwrap();
+        }
+    }
+    for t in ["0001-01-01T00:00:00Z", "9999-12-31T23:59:59.999999999Z", "1970-01-01T00:00:00+14:00", "2024-02-29T12:30:45.123456789-05:30", "1969-12-31T23:59:59.5Z"] {
+        let ts = chrono::DateTime::parse_from_rfc3339(t).unwrap();
+        let expect = Value::Timestamp(ts);
+        for wrap in 0..2 {
+            let r = catch_unwind(AssertUnwindSafe(|| match wrap {
+                0 => cel_interpreter::to_value(cel_interpreter::Timestamp(ts)),
+                _ => cel_interpreter::to_value(vec![cel_interpreter::Timestamp(ts)]),
+            }));
+            let (o, _) = ser_outcome(r);
+            id += 1;
+            writeln!(out, "{}", json!({"id": id, "op": "wrap", "wrap": wrap, "a": enc::value(&expect), "out": o})).unwrap();
+        }
+    }
     // serde_json documents
     for _ in 0..(if thorough { 20000 } else { 2500 }) {
         let dd = 1 + rng.below(4);
